@@ -290,3 +290,149 @@ func init() {
 			x.check(len(emitted) >= 6 && diff(emitted, parsed) == "", "constructors writer-subset-of-reader", "pkg/document/yson/yson.go", "every emitted constructor is parsed", "emitted but not parsed: "+diff(emitted, parsed))
 		}})
 }
+
+// mentionsRemoval: v is computed from a call or field whose name speaks of removal
+// (RemovedAt, IsRemoved, isRemoved, removedAt).
+func mentionsRemoval(v ssa.Value) bool {
+	return prog.DependsOn(v, func(w ssa.Value) bool {
+		if f := prog.LoadedField(w); f != nil && strings.Contains(strings.ToLower(f.Name()), "removed") {
+			return true
+		}
+		if c, ok := prog.Strip(w).(*ssa.Call); ok {
+			name := ""
+			if c.Call.IsInvoke() {
+				name = c.Call.Method.Name()
+			} else if o := prog.CallObj(c); o != nil {
+				name = o.Name()
+			}
+			return strings.Contains(strings.ToLower(name), "removed")
+		}
+		return false
+	})
+}
+
+// liveFilterIn: fn builds a collection (append / map update) inside a loop that an
+// iteration can skip under a condition that speaks of removal.
+func (x *Ctx) liveFilterIn(fn *ssa.Function) bool {
+	var sites []ssa.Instruction
+	for _, c := range builtinCalls(fn, "append") {
+		sites = append(sites, c)
+	}
+	for _, b := range fn.Blocks {
+		for _, ins := range b.Instrs {
+			if mu, ok := ins.(*ssa.MapUpdate); ok {
+				sites = append(sites, mu)
+			}
+		}
+	}
+	for _, s := range sites {
+		for _, ifi := range x.P.ControlDeps(s.Block()) {
+			if mentionsRemoval(ifi.Cond) {
+				return true
+			}
+		}
+	}
+	return false
+}
+
+func init() {
+	register(&Rule{ID: "YSON.live", Min: 5, Text: "the YSON exporter sees live content only: in package yson, every collection (slice or map) the exporter (FromCRDT and what it calls) obtains from the CRDT model comes from an accessor that leaves removed entries out (it, or the accessor it forwards to, builds its result under a condition that tests removal), or the exporter's own loop over it skips removed entries — exported tombstones come back as live content after compaction or revision restore, while the rebuild-compare (which exports both sides the same way) still passes",
+		Run: func(x *Ctx) {
+			root := x.fn("pkg/document/yson.FromCRDT")
+			if root == nil {
+				x.C.Unresolved(x.id(), "yson.FromCRDT")
+				return
+			}
+			exp := x.closureOf([]*ssa.Function{root}, []string{"pkg/document/yson"})
+			n := 0
+			cnt := map[string]int{}
+			var fns []*ssa.Function
+			for f := range exp {
+				fns = append(fns, f)
+			}
+			sort.Slice(fns, func(i, j int) bool { return prog.FnName(fns[i]) < prog.FnName(fns[j]) })
+			for _, fn := range fns {
+				for _, c := range prog.CallsIn(fn) {
+					o := prog.CallObj(c)
+					if o == nil || o.Pkg() == nil || !(strings.HasSuffix(o.Pkg().Path(), "/"+crdtPkg) || strings.HasSuffix(o.Pkg().Path(), "/pkg/index")) {
+						continue
+					}
+					sig := o.Type().(*types.Signature)
+					if sig.Results().Len() == 0 {
+						continue
+					}
+					switch rt := sig.Results().At(0).Type().Underlying().(type) {
+					case *types.Slice:
+						if _, basic := rt.Elem().Underlying().(*types.Basic); basic {
+							continue // bytes, not a collection of entries
+						}
+					case *types.Map:
+					default:
+						continue
+					}
+					n++
+					name := o.Name()
+					if r := sig.Recv(); r != nil {
+						name = types.TypeString(r.Type(), func(*types.Package) string { return "" }) + "." + name
+					}
+					cnt[prog.FnName(fn)+name]++
+					key := fmt.Sprintf("func=%s collection=%s#%d live-only", prog.FnName(fn), name, cnt[prog.FnName(fn)+name])
+					// (a) the accessor (or what it forwards to, three levels) filters on removal
+					filt := false
+					seen := map[*ssa.Function]bool{}
+					var walk func(f *ssa.Function, d int)
+					walk = func(f *ssa.Function, d int) {
+						if f == nil || seen[f] || d > 3 || filt {
+							return
+						}
+						seen[f] = true
+						if x.liveFilterIn(f) {
+							filt = true
+							return
+						}
+						for _, cc := range prog.CallsIn(f) {
+							for _, g := range x.P.Callees(cc) {
+								if g.Pkg != nil && g.Pkg.Pkg != nil && (strings.HasSuffix(g.Pkg.Pkg.Path(), "/"+crdtPkg) || strings.HasSuffix(g.Pkg.Pkg.Path(), "/pkg/index")) {
+									walk(g, d+1)
+								} else if og := g.Origin(); og != nil {
+									walk(og, d+1)
+								}
+							}
+						}
+					}
+					for _, callee := range x.P.Callees(c) {
+						walk(callee, 0)
+					}
+					// an include-removed flag must not be passed
+					flagged := false
+					if sig.Variadic() {
+						last := c.Common().Args[len(c.Common().Args)-1]
+						if k, isK := last.(*ssa.Const); !isK || !k.IsNil() {
+							flagged = true
+						}
+					}
+					if filt && !flagged {
+						x.hold(key, x.pos(c), "the accessor leaves removed entries out")
+						continue
+					}
+					// (b) the exporter's own loop skips removed entries: some If in fn, testing removal on a value
+					// derived from this collection, controls the uses
+					own := false
+					for _, b := range fn.Blocks {
+						ifi := prog.IfOf(b)
+						if ifi == nil || !mentionsRemoval(ifi.Cond) {
+							continue
+						}
+						if prog.DependsOn(ifi.Cond, func(w ssa.Value) bool { return w == c.Value() }) {
+							own = true
+						}
+					}
+					x.check(own, key, x.pos(c), "the exporter's loop skips removed entries itself",
+						"the exporter takes "+name+" — a collection that includes removed entries — and does not skip them: tombstoned content is exported and resurrected by compaction / revision restore")
+				}
+			}
+			if n < 5 {
+				x.C.Vacuous(x.id()+" collection accesses", n, 5)
+			}
+		}})
+}
